@@ -317,6 +317,8 @@ class Normalizer(ast.NodeTransformer):
         if not (isinstance(st, ast.Expr) and isinstance(st.value, ast.Call)):
             return False
         f = st.value.func
+        if _renders_container(st.value):
+            return False  # formatting an object that holds candle lists is work, not just output: stays visible (C07 R-HISTORY)
         if isinstance(f, ast.Name) and f.id == "print":
             return True
         if isinstance(f, ast.Attribute) and isinstance(f.value, ast.Name):
@@ -1095,6 +1097,29 @@ def _copy_propagate(fn: ast.FunctionDef) -> bool:
         stores.pop(a, None)
         changed = True
     return changed
+
+
+_CONTAINER_ATTRS = ("candles", "_candles", "sub_indicators", "managed_indicators", "_indicators", "candle_manager", "_candle_map")
+
+
+def _renders_container(call: ast.Call) -> bool:
+    """a diagnostic call whose message formats `self`, a candle list or a helper container as a whole (not one field / element of it)"""
+
+    def whole(e):
+        if isinstance(e, ast.Name):
+            return e.id in ("self", "candles", "candles_")
+        return isinstance(e, ast.Attribute) and isinstance(e.value, ast.Name) and e.value.id == "self" and e.attr in _CONTAINER_ATTRS
+
+    for n in ast.walk(call):
+        if isinstance(n, ast.FormattedValue) and whole(n.value):
+            return True
+        if isinstance(n, ast.Call) and any(whole(a) for a in list(n.args) + [k.value for k in n.keywords]):
+            fn = n.func.id if isinstance(n.func, ast.Name) else getattr(n.func, "attr", "")
+            if fn not in ("len", "id", "type", "isinstance"):
+                return True
+        if isinstance(n, ast.BinOp) and isinstance(n.op, ast.Mod) and any(whole(a) for a in (n.right.elts if isinstance(n.right, ast.Tuple) else [n.right])):
+            return True
+    return False
 
 
 def normalize(tree: ast.AST) -> ast.AST:
